@@ -105,7 +105,7 @@ branch_ok!(merkle_branch_from_slice_m1, 1, 4);
 //@ clause: from_slice of 128 arbitrary bytes is the four-node branch holding exactly those bytes, in order
 branch_ok!(merkle_branch_from_slice_m4, 4, 7);
 
-//@ harness: merkle_branch_from_slice_m128 class=F tier=thorough props=C10,C15 timeout=1200
+//@ harness: merkle_branch_from_slice_m128 class=F tier=quick props=C10,C15 timeout=1200
 //@ clause: from_slice of 4096 bytes (128 nodes, the maximum) is accepted with 128 nodes
 #[kani::proof]
 #[kani::unwind(131)]
